@@ -1,10 +1,10 @@
 package props
 
 import (
-	"sort"
 	"fmt"
 	"go/token"
 	"go/types"
+	"sort"
 	"strings"
 
 	"golang.org/x/tools/go/ssa"
@@ -77,21 +77,14 @@ func c10(c *Ctx) {
 		return ok && core.CalleeID(cc) == enodeID && cc.Call.Args[0] == node
 	}
 	notAsked := core.AnyFact(func(f core.Fact) bool {
-		if f.Op != token.ILLEGAL || f.Truth {
-			return false
-		}
-		lk, ok := f.V.(*ssa.Lookup)
-		return ok && isLookupField(lk.X, "asked") && idOfNode(lk.Index)
+		set, key, ok := core.SetAbsent(f)
+		return ok && isLookupField(set, "asked") && idOfNode(key)
 	})
 	w := core.InstrGuarded(spawn, notAsked, nil)
 	r.Check(w == nil, "R1.ask-once", sname+" not-asked-before", p.Pos(spawn.Pos()), "a query is spawned only for a node with asked[id] == false", "a peer can be queried twice: "+p.PathString(w))
 	w = core.MustPassBefore(spawn, func(in ssa.Instruction) bool {
-		mu, ok := in.(*ssa.MapUpdate)
-		if !ok || !isLookupField(mu.Map, "asked") || !idOfNode(mu.Key) {
-			return false
-		}
-		b, isC := core.ConstBool(mu.Value)
-		return isC && b
+		set, key, ok := core.SetAdd(in)
+		return ok && isLookupField(set, "asked") && idOfNode(key)
 	})
 	r.Check(w == nil, "R1.ask-once", sname+" marks-asked", p.Pos(spawn.Pos()), "asked[id] = true precedes the spawn", "a node is queried without being marked as asked: "+p.PathString(w))
 	// constructor marks self
@@ -100,15 +93,15 @@ func c10(c *Ctx) {
 		for _, fn := range p.ModuleFuncs() {
 			for _, b := range fn.Blocks {
 				for _, in := range b.Instrs {
-					mu, isMu := in.(*ssa.MapUpdate)
-					if !isMu || !isLookupField(mu.Map, "asked") {
+					set, key, isAdd := core.SetAdd(in)
+					if !isAdd || !isLookupField(set, "asked") {
 						continue
 					}
-					if core.Derives(mu.Key, func(v ssa.Value) bool {
+					if core.Derives(key, func(v ssa.Value) bool {
 						cc, ok := v.(*ssa.Call)
 						return ok && (strings.HasSuffix(core.CalleeID(cc), ").self") || strings.HasSuffix(core.CalleeID(cc), ".Self"))
 					}, core.DeriveOpts{ThroughCalls: true}) {
-						if bv, isC := core.ConstBool(mu.Value); isC && bv && fn != SQ {
+						if fn != SQ {
 							ok = true
 						}
 					}
@@ -493,18 +486,28 @@ func c10(c *Ctx) {
 				r.Check(isC && k == 16, "R4.bounded-result", core.FuncName(fn)+" push-bound", p.Pos(ci.Pos()), "lookup results are bounded by 16", fmt.Sprintf("lookup results are bounded by %d, the property states 16", k))
 				n := ci.Common().Args[1]
 				unseen := core.AnyFact(func(f core.Fact) bool {
-					if f.Op != token.ILLEGAL || f.Truth {
+					set, key, ok := core.SetAbsent(f)
+					if !ok || !isLookupField(set, "seen") {
 						return false
 					}
-					lk, ok := f.V.(*ssa.Lookup)
-					if !ok || !isLookupField(lk.X, "seen") {
-						return false
-					}
-					cc, ok := lk.Index.(*ssa.Call)
+					cc, ok := key.(*ssa.Call)
 					return ok && core.CalleeID(cc) == enodeID && cc.Call.Args[0] == n
 				})
 				w := core.InstrGuarded(ci, unseen, nil)
 				r.Check(w == nil, "R4.bounded-result", core.FuncName(fn)+" push-unseen-only", p.Pos(ci.Pos()), "a node is pushed only when seen[id] == false", "a node can be pushed twice (duplicates in the result): "+p.PathString(w))
+				marksSeen := func(in ssa.Instruction) bool {
+					set, key, ok := core.SetAdd(in)
+					if !ok || !isLookupField(set, "seen") {
+						return false
+					}
+					cc, ok := key.(*ssa.Call)
+					return ok && core.CalleeID(cc) == enodeID && cc.Call.Args[0] == n
+				}
+				if w == nil {
+					wb, wa := core.MustPassBefore(ci, marksSeen), core.MustPassAfter(ci, marksSeen)
+					okM := wb == nil || wa == nil
+					r.Check(okM, "R4.bounded-result", core.FuncName(fn)+" push-marks-seen", p.Pos(ci.Pos()), "a pushed node's id is added to the seen set", "a pushed node is not remembered as seen, so a later reply naming it again pushes it twice: "+p.PathString(wb))
+				}
 			}
 		}
 	}
@@ -598,13 +601,40 @@ func c10(c *Ctx) {
 			w := core.MustPassBefore(cl, func(in ssa.Instruction) bool { return in == runs[0].(ssa.Instruction) })
 			r.Check(w == nil, "R5.content-lookup", name+" close-after-run", p.Pos(cl.Pos()), "the result channel is closed only after the lookup's run() returned", "the result channel can be closed while the lookup is still running (a worker then sends on a closed channel): "+p.PathString(w))
 			// wg.Wait after close and before any return of a result
-			waits := core.CallsTo(fn, "sync.(*WaitGroup).Wait")
-			okWait := len(waits) == 1 && core.MustPassBefore(waits[0], func(in ssa.Instruction) bool { return in == ssa.Instruction(cl) }) == nil
-			if okWait {
-				for _, ret := range core.Returns(fn) {
-					if core.MustPassBefore(ret, func(in ssa.Instruction) bool { return in == waits[0].(ssa.Instruction) }) != nil {
-						okWait = false
+			// the collector is the goroutine that drains the channel being closed; its join is a
+			// WaitGroup wait or a receive from a completion channel it closes on exit
+			okWait := false
+			for _, j := range core.GoroutineJoins(fn) {
+				drains := false
+				for _, jb := range j.Closure.Blocks {
+					for _, jin := range jb.Instrs {
+						var ch ssa.Value
+						switch x := jin.(type) {
+						case *ssa.UnOp:
+							if x.Op == token.ARROW {
+								ch = x.X
+							}
+						case *ssa.Next:
+							if rg, isR := x.Iter.(*ssa.Range); isR {
+								ch = rg.X
+							}
+						}
+						if ch != nil && core.SameCaptured(ch, j.Closure, j.Go, cl.Call.Args[0]) {
+							drains = true
+						}
 					}
+				}
+				if !drains || core.MustPassBefore(j.At, func(in ssa.Instruction) bool { return in == ssa.Instruction(cl) }) != nil {
+					continue
+				}
+				okJ := true
+				for _, ret := range core.Returns(fn) {
+					if core.MustPassBefore(ret, func(in ssa.Instruction) bool { return in == j.At }) != nil {
+						okJ = false
+					}
+				}
+				if okJ {
+					okWait = true
 				}
 			}
 			r.Check(okWait, "R5.content-lookup", name+" join-before-result", p.Pos(cl.Pos()), "the collector goroutine is joined before the result is read", "the result can be read while the collector goroutine is still writing it")
